@@ -408,7 +408,9 @@ fn values_for(t: T, big: &str) -> Vec<Value> {
             for x in [json!(0), json!([]), json!({}), json!(true), Value::Null, json!(big)] { v.push(x); }
         }
         OptRaw | Raw => {
-            for s in ["0x", "", "0x0", "0x00", "00", "0X00", "0xzz", "0x0g", "\u{e9}", "0x\u{e9}\u{e9}", "0x00 ", " 0x00", "0x0x00", "0x6000", "6000", "0xfe", "0xEF00"] { v.push(json!(s)); }
+            for s in ["0x", "", "0x0", "0x00", "00", "0X00", "0xzz", "0x0g", "\u{e9}", "0x\u{e9}\u{e9}", "0x00 ", " 0x00", "0x0x00", "0x6000", "6000", "0xfe", "0xEF00",
+                      // multi-byte characters straddling every small byte offset (a byte-indexed slice of the string panics inside one)
+                      "\u{20ac}", "a\u{e9}", "0\u{20ac}1234", "\u{1f600}", "0\u{1f600}", "0x\u{20ac}", "0x0\u{e9}", "ab\u{1f600}", "\u{e9}\u{20ac}", "0X\u{e9}"] { v.push(json!(s)); }
             v.push(json!(format!("0x{}", "00".repeat(70000))));
             v.push(json!(format!("0x{}", "5b".repeat(500000))));
             for x in [json!(0), json!([]), json!([0, 1]), json!({}), json!(true), Value::Null, json!(big)] { v.push(x); }
@@ -437,6 +439,7 @@ fn values_for(t: T, big: &str) -> Vec<Value> {
                 json!({"opReturnTxIds": ["0x00"], "bitcoinTxHexes": {}}), json!({"opReturnTxIds": [5], "bitcoinTxHexes": {}}), json!({"opReturnTxIds": null, "bitcoinTxHexes": null}),
                 json!({"opReturnTxIds": [], "bitcoinTxHexes": {"0x00": "0x00"}}), json!({"opReturnTxIds": [], "bitcoinTxHexes": {z.clone(): "zz"}}), json!({"opReturnTxIds": [], "bitcoinTxHexes": {z.clone(): 5}}),
                 json!({"opReturnTxIds": [], "bitcoinTxHexes": {z.clone(): null}}), json!({"opReturnTxIds": [], "bitcoinTxHexes": {z.clone(): "0x"}}), json!({"opReturnTxIds": [], "bitcoinTxHexes": []}),
+                json!({"opReturnTxIds": [], "bitcoinTxHexes": {z.clone(): "\u{20ac}"}}), json!({"opReturnTxIds": [], "bitcoinTxHexes": {z.clone(): "a\u{e9}"}}), json!({"opReturnTxIds": [], "bitcoinTxHexes": {z.clone(): "0\u{1f600}00"}}),
                 json!({"opReturnTxIds": {}, "bitcoinTxHexes": {}}), json!([]), json!(5), json!("x"), json!({"opReturnTxIds": [], "bitcoinTxHexes": {z.clone(): big}})] { v.push(x); }
         }
         Filter => {
